@@ -26,3 +26,40 @@ CMC_SHELLS = [
     (6.378140e6 - 4.0e4, (3.4, 0.0, 0.0, 0.0)),
     (6.378140e6, (2.9, 0.0, 0.0, 0.0)),
 ]
+
+# ---- neutrino interactions -----------------------------------------------------------------------
+# Connolly, Thorne, Waters, "Calculation of high energy neutrino-nucleon cross sections and uncertainties
+# using the MSTW parton distribution functions and implications for future experiments",
+# PRD 83, 113009 (2011).  Eq. 7 / Table III: log10(sigma/cm^2) = C1 + C2 ln(eps - C0) + C3 ln^2(eps - C0) + C4 / ln(eps - C0),
+# eps = log10(E/GeV).
+CTW_SIGMA = {
+    ("nu", "cc"): (-1.826, -17.31, -6.406, 1.431, -17.91),
+    ("nu", "nc"): (-1.826, -17.31, -6.448, 1.431, -18.61),
+    ("nubar", "cc"): (-1.033, -15.95, -7.247, 1.569, -17.72),
+    ("nubar", "nc"): (-1.033, -15.95, -7.296, 1.569, -18.30),
+}
+# Eq. 10: sigma_NC / sigma_tot = D1 + D2 ln(eps - D0)
+CTW_NC_FRACTION = (1.76, 0.252162, 0.0256)
+# Eq. 11: fraction of the cross section in the low-y region 0 < y < 1e-3
+CTW_LOW_Y_FRACTION = (0.128, -0.197, 21.8)        # f0 = F0 sin(F1 (eps - F2))
+# Eqs. 12-13, Table V: d sigma / dy ~ (y - C1)^(-1/C2) in the low-y region and ~ 1/(y - C1) in the high-y region,
+# C1 = A0 - A1 exp(-(eps - A2)/A3),  C2 = B0 + B1 eps
+CTW_Y_A = {
+    "low": (0.0, 0.0941, 4.72, 0.456),
+    ("nu", "cc"): (-0.008, 0.26, 3.0, 1.7),
+    ("nubar", "cc"): (-0.0026, 0.085, 4.1, 1.7),
+    "nc": (-0.005, 0.23, 3.0, 1.7),
+}
+CTW_Y_B = (2.55, -0.0949)
+CTW_Y_REGIONS = {"low": (0.0, 1e-3), "high": (1e-3, 1.0)}
+
+# Gandhi, Quigg, Reno, Sarcevic, PRD 58, 093009 (1998), Table / Eqs. 8-11 power-law fits (E in GeV, cm^2)
+GQRS_SIGMA = {
+    ("nu", "cc"): (5.53e-36, 0.363), ("nu", "nc"): (2.31e-36, 0.363), ("nu", "tot"): (7.84e-36, 0.363),
+    ("nubar", "cc"): (5.52e-36, 0.363), ("nubar", "nc"): (2.29e-36, 0.363), ("nubar", "tot"): (7.80e-36, 0.363),
+}
+# AraSim / icemc (documented in the class): charged-current fraction and the "pickY" parametrisation
+GQRS_CC_FRACTION = 0.6865254
+# y = (-ln(R1 + u R2))^2.5 with R1 = 1/e, R2 = 1 - R1   <=>   u = (exp(-y^0.4) - R1) / R2
+
+N_A = 6.02214076e23
